@@ -13,14 +13,15 @@ import xml.etree.ElementTree as et
 from fractions import Fraction
 
 from vt import core
-from vt.gen import model_docs, mutate
+from vt.gen import model_docs, mutate, soup
 from vt.props._isdwork import exc_site
 from vt.ref import build
 
 ID = "C18"
 RULE = ("inputs = valid files from the SRT / WebVTT / SCC / STL generators, IMSC documents written from generated model documents, the "
         "bundled corpus (ttml, scc, stl, vtt/wpt) and structure-aware mutations of all of these (token truncate / delete / duplicate / swap / "
-        "boundary numbers / hostile snippets; STL: GSI field, TTI header, text-field bytes, block surgery); each input read with a sampled "
+        "boundary numbers / hostile snippets; STL: GSI field, TTI header, text-field bytes, block surgery), and token soups (SCC: every class of "
+        "two-byte code in any order; SRT / WebVTT: tags with valueless / empty / duplicated attributes, odd settings, stray delimiters); each input read with a sampled "
         "reader configuration, then ISD sequence, sampled SRT/VTT/IMSC writer configurations, LCD filter, writers again. Non-trivial: input "
         "for which the reader returned a document with content; distinct = distinct input bytes")
 ASSUMPTIONS = [
@@ -29,7 +30,7 @@ ASSUMPTIONS = [
   "termination is bounded: every stage must return within 30 s on inputs <= 16 KiB (timer firing = violation 'does-not-return')",
   "configurations are sampled per input (1 SRT, 2 VTT, 2 IMSC, 1 LCD), not exhaustively crossed",
 ]
-REQUIRED = ["fmt:ttml", "fmt:scc", "fmt:stl", "fmt:srt", "fmt:vtt", "kind:valid", "kind:mutated", "kind:corpus", "reader:returned-doc",
+REQUIRED = ["fmt:ttml", "fmt:scc", "fmt:stl", "fmt:srt", "fmt:vtt", "kind:valid", "kind:mutated", "kind:corpus", "kind:soup", "reader:returned-doc",
             "reader:documented-failure", "stage:isd", "stage:srt", "stage:vtt", "stage:imsc", "stage:lcd", "stage:post-lcd-writers"]
 SHARD_TIMEOUT = {"quick": 900, "thorough": 7200}
 N = {"quick": 110, "thorough": 6000}
@@ -254,6 +255,11 @@ def run(ctx, params):
       if rng.random() < 0.6 and len(data) <= 4 * MAX_INPUT:
         data = mutate.mutate_stl(rng, data) if fmt == "stl" else mutate.mutate_text(rng, data)
         kind = "mutated"
+    elif fmt in ("scc", "srt", "vtt") and r < 0.5:
+      data = soup.gen(rng, fmt)
+      kind = "soup"
+      if fmt == "scc":
+        cfg = {"text_align": rng.choice(["auto", "left", "center", "right"])}
     else:
       try:
         data, cfg = gen_valid(rng, fmt, tier)
